@@ -20,6 +20,7 @@ type Op struct {
 	Gop   bool     // J
 	Panic int      // J
 	Raw   *RawSpec // P with arbitrary NAL types
+	SameTs bool    // P: the packet carries the RTP timestamp of the previously published packet (same access unit)
 }
 
 func (o Op) String() string {
@@ -27,6 +28,9 @@ func (o Op) String() string {
 	case 'P':
 		if o.Raw != nil {
 			return fmt.Sprintf("Praw(mode=%d,types=%v,start=%v)", o.Raw.Mode, o.Raw.Types, o.Raw.Start)
+		}
+		if o.SameTs {
+			return fmt.Sprintf("P%s(same-ts)", KindNames[o.Kind])
 		}
 		return fmt.Sprintf("P%s", KindNames[o.Kind])
 	case 'J':
@@ -49,6 +53,7 @@ func (sc Script) Line(tag string) string {
 	var b strings.Builder
 	fmt.Fprintf(&b, "%s script %s %s %d", tag, b01(sc.Hevc), b01(sc.Gop), sc.MaxQ)
 	uid := uint32(0)
+	lastTs := uint32(0)
 	for _, o := range sc.Ops {
 		switch o.Code {
 		case 'P':
@@ -57,7 +62,8 @@ func (sc Script) Line(tag string) string {
 			if o.Raw != nil {
 				p = MkRaw(uid, *o.Raw, sc.Hevc)
 			}
-			fmt.Fprintf(&b, " P:%d:%s", p.Channel, hlib.Hx(p.Payload()))
+			lastTs = Stamp(p, o.SameTs, lastTs)
+			fmt.Fprintf(&b, " P:%d:%d:%s", p.Channel, TsOf(p), hlib.Hx(p.Payload()))
 		case 'J':
 			fmt.Fprintf(&b, " J:%d:%s:%d", o.Name, b01(o.Gop), o.Panic)
 		case 'X':
@@ -93,9 +99,10 @@ func (sc Script) RunImpl(expected []string) (int, string, string) {
 			var perr error
 			if o.Raw != nil {
 				raw := *o.Raw
-				_, _, perr = w.PublishWith(func(uid uint32) *rtp.Packet { return MkRaw(uid, raw, sc.Hevc) })
+				_, _, perr = w.PublishWith(func(uid uint32) *rtp.Packet { return w.stamp(MkRaw(uid, raw, sc.Hevc), o.SameTs) })
 			} else {
-				_, _, perr = w.Publish(o.Kind, o.Extra)
+				kind, extra, same := o.Kind, o.Extra, o.SameTs
+				_, _, perr = w.PublishWith(func(uid uint32) *rtp.Packet { return w.stamp(MkPkt(uid, kind, sc.Hevc, extra), same) })
 			}
 			if perr == nil {
 				published++
@@ -195,7 +202,7 @@ func GenScript(r *hlib.Rng, profile string, maxOps int) Script {
 		case (profile == "classify" && x < 55) || (profile == "backlog" && x < 30):
 			sc.Ops = append(sc.Ops, Op{Code: 'P', Raw: GenRaw(r, sc.Hevc)})
 		case x < 55 || (profile == "backlog" && x < 85):
-			sc.Ops = append(sc.Ops, Op{Code: 'P', Kind: pubKind(), Extra: genExtra(r)})
+			sc.Ops = append(sc.Ops, genPub(r, pubKind())...)
 		case x < 70:
 			pa := 0
 			if r.Chance(12) {
@@ -223,10 +230,23 @@ func GenScript(r *hlib.Rng, profile string, maxOps int) Script {
 			sc.Ops = append(sc.Ops, Op{Code: 'X'})
 			closed = r.Chance(70)
 		default:
-			sc.Ops = append(sc.Ops, Op{Code: 'P', Kind: pubKind(), Extra: genExtra(r)})
+			sc.Ops = append(sc.Ops, genPub(r, pubKind())...)
 		}
 	}
 	return sc
+}
+
+// genPub: one publish op — or, for a key-frame slice, sometimes a key frame of several slice packets
+// (same RTP timestamp); any packet may share the timestamp of its predecessor (parameter sets and the
+// slices of one access unit do)
+func genPub(r *hlib.Rng, k Kind) []Op {
+	ops := []Op{{Code: 'P', Kind: k, Extra: genExtra(r), SameTs: r.Chance(25)}}
+	if k == KKey && r.Chance(45) {
+		for n := 1 + r.Intn(2); n > 0; n-- {
+			ops = append(ops, Op{Code: 'P', Kind: KKey, Extra: genExtra(r), SameTs: !r.Chance(10)})
+		}
+	}
+	return ops
 }
 
 // GenRaw draws a well-formed packet with arbitrary NAL types
